@@ -49,6 +49,8 @@ structure Mux where
   pmtCC : WrappingCounter := newWrappingCounter 15
   esCC : List (Nat × WrappingCounter) := []      -- esContexts: PID ↦ continuity counter
   retransmitCounter : Nat := 40
+  /-- continuity counters of removed streams: a PID that is added again continues its counter -/
+  removedCC : List (Nat × WrappingCounter) := []
   deriving Repr, Inhabited
 
 def newMux (period : Nat := 40) : Mux := { period := period, retransmitCounter := period }
@@ -66,23 +68,28 @@ def Mux.nextFree (m : Mux) (pid : Nat) : Nat → Nat
   | 0 => pid
   | fuel + 1 => if m.pidInUse pid then m.nextFree ((pid + 1) % 65536) fuel else pid
 
+/-- counter a (re-)added PID starts from: the one it had when it was removed, or a fresh one -/
+def Mux.keptCC (m : Mux) (pid : Nat) : WrappingCounter :=
+  ((m.removedCC.find? (·.1 == pid)).map (·.2)).getD (newWrappingCounter 15)
+
 /-- `AddElementaryStream` -/
 def Mux.addElementaryStream (m : Mux) (es : PMTElementaryStream) : Res Unit × Mux :=
   if es.elementaryPID ≠ 0 then
     if m.streams.any (·.elementaryPID == es.elementaryPID) then (.err .pidExists, m)
     else
-      (.ok (), { m with streams := m.streams ++ [es], esCC := (m.esCC.filter (·.1 != es.elementaryPID)) ++ [(es.elementaryPID, newWrappingCounter 15)],
-                        pmtUpdated := true })
+      (.ok (), { m with streams := m.streams ++ [es], esCC := (m.esCC.filter (·.1 != es.elementaryPID)) ++ [(es.elementaryPID, m.keptCC es.elementaryPID)],
+                        removedCC := m.removedCC.filter (·.1 != es.elementaryPID), pmtUpdated := true })
   else
     let pid := m.nextFree m.nextPID 65536
     let es := { es with elementaryPID := pid }
-    (.ok (), { m with streams := m.streams ++ [es], esCC := m.esCC ++ [(pid, newWrappingCounter 15)],
-                      nextPID := (pid + 1) % 65536, pmtUpdated := true })
+    (.ok (), { m with streams := m.streams ++ [es], esCC := m.esCC ++ [(pid, m.keptCC pid)],
+                      removedCC := m.removedCC.filter (·.1 != pid), nextPID := (pid + 1) % 65536, pmtUpdated := true })
 
 /-- `RemoveElementaryStream` -/
 def Mux.removeElementaryStream (m : Mux) (pid : Nat) : Res Unit × Mux :=
   if m.streams.any (·.elementaryPID == pid) then
     (.ok (), { m with streams := m.streams.filter (·.elementaryPID != pid), esCC := m.esCC.filter (·.1 != pid),
+                      removedCC := (m.removedCC.filter (·.1 != pid)) ++ (match m.ccOf pid with | some c => [(pid, c)] | none => []),
                       pmtUpdated := true })
   else (.err .pidNotFound, m)
 
@@ -178,7 +185,7 @@ def writeDataLoop (pid : Nat) (hdr : PESHeader) : Nat → (data : Bytes) → (pa
     if data.isEmpty then (.ok acc, cc, af, acc)
     else
       let pktAF : Option PacketAdaptationField := if writeAf then af else none
-      let pktLen : Int := 4 + (if writeAf then 1 + (calcAFLength (af.getD default) : Int) else 0)
+      let pktLen : Int := 4 + (if writeAf then 1 + afSize (af.getD default) else 0)
       let bytesAvailable : Int := 188 - pktLen
       let mkHeader (hasAF hasPayload pusi : Bool) (ccv : Nat) : PacketHeader :=
         { continuityCounter := ccv, hasAdaptationField := hasAF, hasPayload := hasPayload,
